@@ -44,8 +44,11 @@ RULES = {
     "initialises as a mutable container (`self.<field> = set()` / `{}` / `[]` / `dict(...)` … in a constructor) - the new object is a new "
     "object, but the set or dict inside it is then the original's: marks added or cleared on one copy (the invalidated keys of a metadata "
     "store) appear on the other, so a functionalized pass alters its input model",
+    "R11": "the clone has attribute objects of its own: `Cloner.clone_attr` never returns the attribute it was given - an Attr is mutable "
+    "(`name`, `doc_string`, `meta`, and the Shape inside the TypeAndShape of a TYPE_PROTO attribute), so an Attr object that sits in "
+    "the attribute sets of both the original and the clone carries every later edit of one copy over to the other",
 }
-FLOORS = {"R1": 26, "R2": 30, "R3": 2, "R4": 1, "R5": 2, "R6": 1, "R7": 7, "R8": 1, "R9": 3, "R10": 5}
+FLOORS = {"R1": 26, "R2": 30, "R3": 2, "R4": 1, "R5": 2, "R6": 1, "R7": 7, "R8": 1, "R9": 3, "R10": 5, "R11": 2}
 EXPLANATION = (
     "A sharing analysis over the cloner and the clone() methods: each data flow original.field → clone is classified "
     "by the mutability of the field's declared class (computed from the source: setters, __setitem__, self-stores) "
@@ -829,9 +832,28 @@ def rule_r10(ctx):
     ctx.require(n >= 5, f"only {n} attribute stores found in the cloner")
 
 
+def rule_r11(ctx):
+    f = ctx.repo.func("onnx_ir._cloner:Cloner.clone_attr")
+    a = f.node.args
+    params = [x.arg for x in a.posonlyargs + a.args]
+    attr_p = next((p_ for p_ in params if p_ not in ("self", "key", "deep_copy")), None)
+    ctx.require(attr_p is not None, "Cloner.clone_attr: the attribute parameter was not found")
+    n = 0
+    for r in (x for x in own_nodes(f.node) if isinstance(x, ast.Return) and x.value is not None):
+        n += 1
+        same = isinstance(r.value, ast.Name) and r.value.id == attr_p
+        g_ = getattr(r, "_parent", None)
+        ctx.check("R11", f"Cloner.clone_attr: `{norm(r)}` hands out a new attribute object", not same, f, r,
+                  f"`{norm(r)}`" + (f" (under `{norm(g_.test)[:50]}`)" if isinstance(g_, ast.If) else "") + " puts the source's own Attr object into the clone: `clone.graph[0].attributes['t'].value.shape[0] = 7` "
+                  "on a TYPE_PROTO attribute, or setting `doc_string` / `name` of an attribute of the clone, changes the original as well",
+                  how="return statements of Cloner.clone_attr × the attribute parameter itself", construct=f"clone_attr returns its argument ({'plain' if not isinstance(g_, ast.If) else norm(g_.test)[:40]})")
+    ctx.require(n >= 2, f"only {n} return statements found in Cloner.clone_attr")
+
+
 def run(ctx):
     from . import c03, c18
 
+    rule_r11(ctx)
     rule_r10(ctx)
 
     rule_r9(ctx)
